@@ -124,7 +124,8 @@ def make_adapter(S, sc, log):
 
 
 def do_listener(S, ad, log, kind, item, origin, within=None):
-    tag = 'e%d' % len(log['lis'])
+    log['ntag'] = log.get('ntag', 0) + 1       # unique per call (two threads may be between here and the append below)
+    tag = 'e%d' % log['ntag']
     S.yield_('lis-begin', (kind, item, origin, tag), cond=lambda: ad.listener is not None)
     listener = ad.listener
     lc = LisCall(kind, item, S.me().name if S.me() else 'ctl', origin, S.step_no, within, tag)
@@ -249,7 +250,7 @@ def item_labels(r):
             jobs_per_item[e[4]].append(e[3])
     for st in r.trace:
         tid, role, kind, data, no = st['tid'], st['role'], st['kind'], st['data'], st['step']
-        if kind in ('start', 'released'):
+        if kind in ('start', 'released', 'clock'):
             continue
         if role == 'reader':
             if kind == 'acquire' and data[0] == 'M':
@@ -790,6 +791,25 @@ def oracle_c16(r, F):
         idx = [pos[m][0] for m in ms if multiplicity[m.decode('utf-8')] == 1 and len(pos.get(m, [])) == 1]
         if idx != sorted(idx):
             out.append(('messages of thread %s written out of its submission order' % th, {'kind': 'thread_order'}))
+    # producer level: what a thread submitted through the listener API is what was enqueued for it — the line enqueued
+    # during an update / failure call carries THAT call's payload (not lost, not replaced by another thread's, not doubled)
+    def carries(line, lc):
+        toks = line.split('|')
+        if lc.kind == 'upd':
+            return any(t == lc.tag or t.startswith(lc.tag + '%3A') for t in toks)
+        return any(t == 'failure+' + lc.tag for t in toks)
+    for lc in r.lis:
+        if lc.kind not in ('upd', 'fal') or lc.e is None:
+            continue
+        mine = [p for p in puts if p[1] == lc.thread and lc.b <= p[0] <= lc.e]
+        if len(mine) > 1:
+            out.append(('%d messages enqueued during one %s call of thread %s' % (len(mine), lc.kind, lc.thread), {'kind': 'producer_dup'}))
+        elif len(mine) == 1 and not carries(mine[0][2], lc):
+            out.append(('the message enqueued during the %s call %s of thread %s is %r: not the data submitted by that call' % (
+                lc.kind, lc.tag, lc.thread, mine[0][2][:80]), {'kind': 'producer_payload'}))
+        n = sum(1 for p in puts if carries(p[2], lc))
+        if n > 1:
+            out.append(('the data submitted by the %s call %s was enqueued %d times' % (lc.kind, lc.tag, n), {'kind': 'producer_dup'}))
     # events nested in subscribe() precede that subscription's reply
     for lc in r.lis:
         if lc.within is not None and lc.within.name == 'subscribe' and lc.e is not None:
